@@ -832,6 +832,21 @@ func judge(doc J) *judgement {
 		if ipRules && !boolean(m, "disableNameResolutionForIPRules") && len(resolverNames) == 0 {
 			j.open("ip-rules-without-resolvers")
 		}
+		geo := len(list(m, "fromGeoIPCountries")) > 0 || len(list(m, "toGeoIPCountries")) > 0 || len(list(m, "toMatchedDomainExpectedGeoIPCountries")) > 0
+		if geo && str(rt, "geoLite2CountryDbPath") == "" {
+			j.bad("route-geoip-criteria-without-database") // a referenced resource that does not exist
+		}
+		if len(list(m, "toGeoIPCountries")) > 0 && !boolean(m, "disableNameResolutionForIPRules") && len(resolverNames) == 0 {
+			j.open("ip-rules-without-resolvers")
+		}
+		if len(list(m, "toMatchedDomainExpectedGeoIPCountries")) > 0 {
+			if len(resolverNames) == 0 {
+				j.open("expected-ip-rules-without-resolvers")
+			}
+			if len(list(m, "toDomainSets")) == 0 && len(list(m, "toDomains")) == 0 {
+				j.open("expected-ip-rules-without-domain-criteria")
+			}
+		}
 		if len(list(m, "toMatchedDomainExpectedPrefixSets")) > 0 {
 			if len(resolverNames) == 0 {
 				j.open("expected-ip-rules-without-resolvers")
